@@ -270,6 +270,28 @@ def run(ctx) -> None:
                         break
             if n <= 3 or (nontrivial and len(ctx.samples) < 6):
                 ctx.sample(dict(source=source, L=L, chunksize=CS, row_groups=list(groups), passes=passes, workers=W, recorded_requests=got))
+    # a faulty input (non-finite cell in chunk k): the creation is refused (C09's business) - and up to that point the
+    # source must still have been read in consecutive slices, none of them twice
+    with scratch("c18nan_") as root:
+        for k, (L, CS, bad_row) in enumerate([(12, 3, 7), (12, 4, 0), (10, 3, 9), (9, 2, 4)]):
+            for W in (1, 2):
+                work = root / f"nan{k}_{W}"
+                work.mkdir()
+                log = recsrc.Log()
+                df = make_frame(L, ctx.seed + k)
+                df.loc[bad_row, "w"] = float("nan")
+                fn = lambda: yaw.Catalog.from_dataframe(str(work / "cache"), recsrc.RecFrame(df, log), ra_name="ra", dec_name="dec",   # noqa: E731
+                                                        weight_name="w", redshift_name="z", patch_centers=centers, chunksize=CS, max_workers=W, overwrite=True)
+                s_, outcome = detrt.run_main(lambda: sum(fn().get_num_records()), seed=k)
+                ctx.evaluated(1, ("nan_input", L, CS, bad_row, W))
+                got, whole = split_passes(log.events)
+                reqs = [tuple(r) for r in (got[-1] if got else [])]
+                detail = dict(L=L, chunksize=CS, nan_row=bad_row, workers=W, outcome=outcome[0], requests=reqs)
+                starts = [a for a, _ in reqs]
+                if len(set(starts)) != len(starts) or any(b - a > CS for a, b in reqs) or any(reqs[i + 1][0] != reqs[i][1] for i in range(len(reqs) - 1)):
+                    ctx.violation("C18|frame|apply,non_finite_input|any|slice_requested_twice_or_not_consecutive", detail)
+                if whole:
+                    ctx.violation("C18|frame|apply,non_finite_input|any|whole_source_requested", dict(detail, unsliced=whole[:3]))
     # binding demonstration: a corrupted recording must fail the predicates
     ctx.require(predicates([[(0, 3), (3, 6)], ], [], 6, 2, 1) != [], "binding demo: oversized request not flagged")
     ctx.require(predicates([[(0, 2), (3, 5), (5, 6)]], [], 6, 2, 1) != [], "binding demo: gap not flagged")
